@@ -181,6 +181,14 @@ class Engine(object):
     def list_len(self, st, r):
         return z3.Select(self.harr(st, '$LEN'), r)
 
+    def spec_formula(self, st, spec, t):
+        """the declared type of a value; a fixed-shape tuple type `tuple[A,B,C]` also fixes the length"""
+        f = spec.assumption(t)
+        if spec.kind == 'tuple' and isinstance(spec.elem, (list, tuple)):
+            shape = self.list_len(st, Val.r(t)) == len(spec.elem)
+            f = And(f, z3.Implies(Val.is_R(t), shape))
+        return f
+
     def list_off(self, st, r):
         """lists are windows into their element array: element i lives at index OFF + i (pop(0) and slicing move
         the window instead of copying)"""
